@@ -216,6 +216,12 @@ class Broker:
             quantity = self._holdings_quantity[contract]
             liq_price = self.exchange[contract].liq_price(quantity)
             if np.isnan(liq_price):
+                if quantity == 0:
+                    # Nothing is held: whatever is left in the margin account
+                    # (the settlement of the closing trade) goes back to cash.
+                    # No price is needed for that.
+                    self._holdings_quantity[self.base_currency] += self._holdings_margins[contract]
+                    self._holdings_margins[contract] = 0.
                 continue
             try:
                 last_price = self._last_marking_to_market_price[contract]
